@@ -50,17 +50,17 @@ CLAIMS = {
             "technique": "quiescent-point invariant over generated concurrent histories and generated sequences",
             "text": "After every generated concurrent phase (inserts/deletes racing each other and table copies) Size == Range visits == successful Loads == model; caches: Count interval, exact after DeleteExpired, 0 after Clear; sequentially after every few steps.",
             "note": E2_NOTE},
-    "C09": {"engine": "E1", "design_ref": "DESIGN.md section 4 C09",
-            "technique": "model-based stateful property testing with boundary-value generators (constructors x TTLs x defaults x clock)",
-            "text": "Constructor variants x boundary defaults x boundary TTL arguments x SetDefaultExpiration x arbitrary clock advances; stored instant, GetWithExpiration, GetWithTTL, DefaultExpiration and re-arming behaviour compared exactly with the model under a virtual clock.",
-            "note": E1_NOTE},
+    "C09": {"engine": "E1+E2", "design_ref": "DESIGN.md section 4 C09",
+            "technique": "model-based stateful property testing with boundary-value generators (constructors and option lists x TTLs x defaults x clock); generated concurrent programs of default/callback setters racing sentinel-resolving writes under generated schedules, checked for linearizability",
+            "text": "Constructor variants (option lists in any order, repeated options) x boundary defaults x boundary TTL arguments x SetDefaultExpiration x arbitrary clock advances; stored instant, GetWithExpiration, GetWithTTL and re-arming behaviour compared exactly with the model under a virtual clock. Concurrently: SetDefaultExpiration and SetEvictedCallback racing every call that resolves the DefaultExpiration sentinel; a default set by a completed call governs every later write.",
+            "note": E1_NOTE + " " + E2_NOTE},
     "C16": {"engine": "E2", "design_ref": "DESIGN.md section 4 C16",
             "technique": "stall sweep under a deterministic scheduler: writer parked at every scheduling point / inside its user function while generated lookups run alone",
             "text": "For generated (writer call, lookups) pairs on all four containers the writer is suspended at each of its atomic/lock operations in turn (incl. mid-resize, mid-Clear, inside Compute's user function) and the lookups must complete without blocking, spinning or exceeding a bound on their own steps, returning linearizable results.",
             "note": E2_NOTE + " The own-step bound is a concrete number (4x quiescent cost + 64); lookups of expired keys are excluded as in the property."},
     "C10": {"engine": "E3", "design_ref": "DESIGN.md section 4 C10",
             "technique": "differential property testing against builtin map[K]V over a catalogue of key types with equal-but-differently-represented keys",
-            "text": "For 28 comparable key types incl. interface-typed keys holding pointers, nil pointers and the nil interface, padded structs with dirty padding, signed zeros: generated call sequences on MapOf/CacheOf (default and fully colliding hashers) compared call by call with a builtin map; no valid key may panic.",
+            "text": "For 32 comparable key types incl. interface-typed keys holding pointers, nil pointers and the nil interface, padded structs and pointer-free shapes with dirty ignored bytes, signed zeros: generated call sequences on MapOf/CacheOf (default and fully colliding hashers) compared call by call with a builtin map; no valid key may panic. Plus 14 (key,value) pair types chosen for the size, pointer content and alignment class of their entry objects, with bulk phases of up to 4096 pairs.",
             "note": "Sequential; NaN excluded (not equal to itself); the per-process hash key is varied by running several processes, not enumerated."},
     "C11": {"engine": "E1", "design_ref": "DESIGN.md section 4 C11",
             "technique": "differential/metamorphic property testing: one generated call sequence on instances with different size hints, table seeds and hashers, plus a reference map model",
@@ -72,15 +72,15 @@ CLAIMS = {
             "note": "Sequential (concurrent behaviour of each twin is decided by C02-C04); values are comparable with reflect.DeepEqual."},
     "C14": {"engine": "E3", "design_ref": "DESIGN.md section 4 C14",
             "technique": "generated parallel programs executed natively under the Go race detector with payload-checksum oracle",
-            "text": "Generated parallel programs (2-64 goroutines, six op-mix profiles incl. settings churn, janitor, Range under write, clear/resize churn) on all four containers under -race; every value read back must be a fully initialised payload.",
+            "text": "Generated parallel programs (2-64 goroutines, nine profiles incl. settings churn, janitor, Range under write, clear/resize churn, big tables, the shrink edge, many unshared containers) on all four containers under -race; every value read back must be a fully initialised payload; long disjoint-key runs against per-goroutine sequential models.",
             "note": "Native OS scheduling, not reproducible by seed; the race detector only sees races that happen in the runs made."},
     "C15": {"engine": "E3", "design_ref": "DESIGN.md section 4 C15",
             "technique": "generated configurations run in real time: Count polling, callback ledger, goroutine count and finalizer sentinel after GC",
-            "text": "Generated constructor/interval/population configurations: automatic cleanup within a bounded number of intervals without user calls, no cleanup and no goroutine when not configured, janitor goroutines and contents gone after the caches are dropped.",
+            "text": "Generated constructor/interval/population configurations (intervals from 50 microseconds to one minute, waves stored mid-sweep, ballast, callbacks swapped, one slow callback): automatic cleanup within a bounded number of intervals without user calls and at a pace that does not depend on history, no cleanup when not configured, janitor goroutines and contents gone after the caches are dropped - also when only the youngest caches are dropped.",
             "note": "Real time with wide margins; a deadline missed once is re-run, only a repeated miss is reported."},
-    "C13": {"engine": "E2", "design_ref": "DESIGN.md section 4 C13",
-            "technique": "deadlock / no-progress detection by a deterministic scheduler over generated programs and schedules",
-            "text": "Bounded liveness: under every explored schedule no call is unfinished when nothing can run (deadlock, lost wake-up, leaked lock) and no execution exceeds 60x its non-preemptive step count; callbacks and visitors re-enter the container; quiescent read-back takes every bucket lock.",
+    "C13": {"engine": "E2+E2R", "design_ref": "DESIGN.md section 4 C13",
+            "technique": "deadlock / no-progress detection (step budget and wall-clock watchdog) by a deterministic scheduler over generated programs and schedules; generated callbacks and visitors that call back with the whole vocabulary",
+            "text": "Bounded liveness: under every explored schedule no call is unfinished when nothing can run (deadlock, lost wake-up, leaked lock), no execution exceeds 60x its non-preemptive step count and no thread runs 45 s without reaching a scheduling point; evicted callbacks and Range visitors call any method of the same container; quiescent read-back takes every bucket lock.",
             "note": E2_NOTE + " Bounded liveness only: unbounded starvation under an unfair OS scheduler is not decidable by testing."},
 }
 
